@@ -587,6 +587,67 @@ func (r *Run) c12Layout() {
 		fmt.Sprintf("processList: activation stored=%v id->index stored=%v under the same index=%v index runs start,start+1,.. and is returned=%v", okAct, okMap, same, okStep))
 }
 
+// c12CountsInputs: the store in block b with index variable iv is executed for iv = 0, 1, .., n-1 where n is
+// inputNeuronCount or len(inputs): iv is the counter of the innermost loop around b, whose header test `iv < n`
+// guards b. Two counter forms: the three-clause loop (iv is a header phi entering with 0 and advanced by one on
+// every back edge) and the range loop (iv = k+1 for a header phi k entering with -1 and carrying iv on every back edge).
+func c12CountsInputs(tm *Termer, fn *ssa.Function, b *ssa.BasicBlock, iv ssa.Value) bool {
+	l := InnermostLoop(Loops(fn), b)
+	if l == nil || len(l.Header.Succs) != 2 {
+		return false
+	}
+	h := l.Header
+	iff, ok := h.Instrs[len(h.Instrs)-1].(*ssa.If)
+	if !ok || !l.Blocks[h.Succs[0]] || l.Blocks[h.Succs[1]] || !edgeDominates(h, h.Succs[0], b) {
+		return false
+	}
+	cmp, ok := iff.Cond.(*ssa.BinOp)
+	if !ok || cmp.Op != token.LSS || cmp.X != iv {
+		return false
+	}
+	if bt := tm.Of(cmp.Y).String(); bt != "recv.inputNeuronCount" && bt != "len(p1)" {
+		return false
+	}
+	var ph *ssa.Phi
+	var enter int64
+	next := func(e ssa.Value) bool { return false }
+	switch x := iv.(type) {
+	case *ssa.Phi:
+		ph, enter = x, 0
+		next = func(e ssa.Value) bool {
+			bo, ok := e.(*ssa.BinOp)
+			return ok && bo.Op == token.ADD && bo.X == ssa.Value(x) && IsConstIntValue(bo.Y, 1)
+		}
+	case *ssa.BinOp:
+		k, isPhi := x.X.(*ssa.Phi)
+		if x.Op != token.ADD || !isPhi || !IsConstIntValue(x.Y, 1) || x.Block() != h {
+			return false
+		}
+		ph, enter = k, -1
+		next = func(e ssa.Value) bool { return e == ssa.Value(x) }
+	default:
+		return false
+	}
+	if ph.Block() != h {
+		return false
+	}
+	nIn, nBack := 0, 0
+	for i, e := range ph.Edges {
+		if l.Blocks[h.Preds[i]] {
+			if !next(e) {
+				return false
+			}
+			nBack++
+		} else {
+			if !IsConstIntValue(e, enter) {
+				return false
+			}
+			nIn++
+		}
+	}
+	return nIn > 0 && nBack > 0
+}
+
 // c12Windows implements C12.6.
 func (r *Run) c12Windows() {
 	p := r.P
@@ -615,30 +676,19 @@ func (r *Run) c12Windows() {
 				iv = it.Args[0]
 			}
 			if iv != nil && len(vt.Args) > 1 && vt.Args[1].V == iv.V {
-				if ph, ok := iv.V.(*ssa.Phi); ok {
-					l := InnermostLoop(Loops(ls), b)
-					init, step, bound := false, false, false
-					for _, e := range ph.Edges {
-						if IsConstIntValue(e, 0) {
-							init = true
-						} else if bo, ok := e.(*ssa.BinOp); ok && bo.Op == token.ADD && bo.X == ssa.Value(ph) && IsConstIntValue(bo.Y, 1) {
-							step = true
-						}
-					}
-					if l != nil {
-						if iff, ok := l.Header.Instrs[len(l.Header.Instrs)-1].(*ssa.If); ok {
-							ct := tm.Of(iff.Cond)
-							bound = ct.Op == "bin" && ct.Name == "<" && ct.Args[0].V == ssa.Value(ph) && (ct.Args[1].String() == "recv.inputNeuronCount" || ct.Args[1].String() == "len(p1)")
-						}
-					}
-					okStore = init && step && bound
+				if c12CountsInputs(tm, ls, b, iv.V) {
+					okStore = true
 				}
 			}
 		}
 		for _, g := range Guards(b) {
 			gt := tm.Of(g.Cond)
-			if gt.Op == "bin" && gt.Name == "==" && g.True && gt.Args[0].String() == "len(p1)" && gt.Args[1].String() == "recv.inputNeuronCount" {
-				okGuard = true
+			// len(inputs) == inputNeuronCount holds here: `==` taken, or `!=` not taken (early error return), either operand order
+			if gt.Op == "bin" && (gt.Name == "==" && g.True || gt.Name == "!=" && !g.True) {
+				x, y := gt.Args[0].String(), gt.Args[1].String()
+				if x == "len(p1)" && y == "recv.inputNeuronCount" || y == "len(p1)" && x == "recv.inputNeuronCount" {
+					okGuard = true
+				}
 			}
 		}
 	})
